@@ -1,5 +1,5 @@
 (* Pinned statements of C05: re-checked on every run. *)
-From SF Require Import Base.Prelude Gen.Generated Unsized.Types Unsized.Parse Unsized.Machine Unsized.Ops Unsized.Run Unsized.Proofs.EncodeParse Unsized.Proofs.Mem Unsized.Proofs.Notify Unsized.Proofs.Flat Unsized.Proofs.Layout Unsized.Proofs.Observe Unsized.Proofs.Path Unsized.Proofs.Context Unsized.Proofs.FocusOps Unsized.Proofs.NotifyInside Unsized.Proofs.Resize Unsized.Proofs.GenOps Unsized.Proofs.History Unsized.Proofs.Init Unsized.Proofs.History2 Unsized.Proofs.ExecTie Properties.C05.
+From SF Require Import Base.Prelude Gen.Generated Unsized.Types Unsized.Parse Unsized.Machine Unsized.Ops Unsized.Run Unsized.Proofs.EncodeParse Unsized.Proofs.Mem Unsized.Proofs.Notify Unsized.Proofs.Flat Unsized.Proofs.Layout Unsized.Proofs.Observe Unsized.Proofs.Path Unsized.Proofs.Context Unsized.Proofs.FocusOps Unsized.Proofs.NotifyInside Unsized.Proofs.Resize Unsized.Proofs.GenOps Unsized.Proofs.History Unsized.Proofs.Init Unsized.Proofs.History2 Unsized.Proofs.ExecTie Unsized.Proofs.InitKinds Properties.C05.
 
 Check (C05_encode_size :
  forall t v, wf t v = true -> zlen (encode t v) = byte_size t v).
@@ -24,6 +24,11 @@ Check (C05_init_array_exact :
   forall c lw kind n, (kind = 1 /\ n = 3) \/ (kind = 2 /\ n = 300) -> n < 256 ^ Z.of_nat lw ->
     init_bytes (TList c lw) kind = Ok (encode (TList c lw) (VList (repeat (repeat 1 (fsize c)) (Z.to_nat n)))) /\
     init_size (TList c lw) kind = zlen (encode (TList c lw) (VList (repeat (repeat 1 (fsize c)) (Z.to_nat n))))).
+Check (C05_every_initializer_exact :
+  forall ovf it kind dv,
+    ty_ok true it = true -> ival it kind = Some dv -> ones_ok it kind = true ->
+    exists bs, init_bytes it kind = Ok bs /\ zlen bs = init_size it kind /\ bs = encode it dv /\
+               parse ovf it bs = Ok (dv, init_size it kind)).
 Check (C05_init_array_too_long :
   forall c lw kind n, (kind = 1 /\ n = 3) \/ (kind = 2 /\ n = 300) -> 256 ^ Z.of_nat lw <= n ->
     init_bytes (TList c lw) kind = Err E_TOPRIM).
@@ -36,4 +41,5 @@ Print Assumptions C05_discriminant_roundtrip.
 Print Assumptions C05_init_default_exact.
 Print Assumptions C05_init_then_deserialize.
 Print Assumptions C05_init_array_exact.
+Print Assumptions C05_every_initializer_exact.
 Print Assumptions C05_init_array_too_long.
